@@ -136,6 +136,7 @@ func TestPlan(t *testing.T) {
 		p.Shards = append(p.Shards, sc...)
 	case "C12":
 		binShards("^TestClean$", 16, 60, 16, 1300)
+		p.Shards = append(p.Shards, ev.ShardSpec{Name: "cleantemplates-0", Test: "^TestCleanTemplates$", TimeoutS: 900})
 	case "C17":
 		p.CrashIsViolation = true
 		p.ReplayKindCrash = "find-inflight"
@@ -1075,6 +1076,39 @@ func TestClean(t *testing.T) {
 		}
 		return execClean(s, b, c)
 	})
+}
+
+// TestCleanTemplates: the small corners of --clean — no outputs at all, only a glob that matches
+// nothing, only an output that does not exist, a single output — with and without a cache, a clean
+// task, a second task, and under every way of starting spok.
+func TestCleanTemplates(t *testing.T) {
+	s := ev.Open(t, "C12")
+	b := newBox(t)
+	seen := map[string]bool{}
+	type outs struct {
+		lit, globs []string
+		named      []NamedOut
+	}
+	for _, o := range []outs{{}, {globs: []string{"none/*.zzz"}}, {lit: []string{"missing/file"}}, {lit: []string{"bin/app"}}, {named: []NamedOut{{"NOPE", `"nothing/here"`, "nothing/here"}}}, {globs: []string{"build/*.o"}}} {
+		for _, pre := range []bool{true, false} {
+			for _, cleanTask := range []bool{false, true} {
+				for nt := 1; nt <= 2; nt++ {
+					for _, inv := range []string{"", "rel-dot", "rel-parent", "abs-elsewhere"} {
+						c := CleanCase{Tree: []string{"bin/app", "build/x.o", "src/main.c", "README.md"}, Literal: o.lit, Named: o.named, Globs: o.globs, PreCache: pre, CleanTask: cleanTask, NTasks: nt, Invoke: inv}
+						s.Eval()
+						s.Class("enumerated_small_clean_cases")
+						if f := execClean(s, b, c); f != nil && !seen[f.Sig] {
+							seen[f.Sig] = true
+							s.Violation("clean", f.Sig, f.Msg, f.Size, c)
+						}
+					}
+				}
+			}
+		}
+	}
+	if s.Failed() {
+		t.Fatal("violations recorded")
+	}
 }
 
 func TestVars(t *testing.T) {
